@@ -85,6 +85,20 @@ func (s *Sched) spawn(name string, f func()) *G {
 
 // pick the next goroutine to run: lowest-id runnable; else a settling one.
 func (s *Sched) pick() *G {
+	if s.r.allSchedules {
+		// non-preemptive schedule exploration: fork over which runnable goroutine continues
+		var run []*G
+		for _, g := range s.gs {
+			if g.state == gRunnable {
+				run = append(run, g)
+			}
+		}
+		if len(run) > 1 {
+			s.r.schedForks++
+			s.r.selectForks++
+			return run[s.r.chooseN(len(run))]
+		}
+	}
 	for _, g := range s.gs {
 		if g.state == gRunnable {
 			return g
